@@ -862,6 +862,16 @@ class Interp:
         # functools.partial(g, *a, **k)(*b, **l)  ==  g(*a, *b, **k, **l)
         if f[0] == "call" and f[1] == ("glob", "ext:functools.partial") and f[2] and f[2][0][0] != "star":
             return self.apply(f[2][0], tuple(f[2][1:]) + args, tuple(f[3]) + kwargs, path, node, awaited)
+        # map(operator.attrgetter("a"), xs) / map(lambda x: e, xs)  ==  (x.a for x in xs) / (e for x in xs)
+        if f == ("glob", "ext:builtins.map") and len(args) == 2 and not kwargs:
+            g, xs = args
+            gs = strip_sites(g)
+            if gs[0] == "call" and gs[1] == ("glob", "ext:operator.attrgetter") and len(gs[2]) == 1 and not gs[3] and gs[2][0][0] == "const" and isinstance(gs[2][0][1], str) and "." not in gs[2][0][1]:
+                v = ("bound", "_m")
+                return [("value", path, ("comp", "gen", ("attr", v, gs[2][0][1]), ((v, xs, ()),)))]
+            if g[0] == "lambda" and len(g[1]) == 1 and g[2][0] != "opaque":
+                v = ("bound", g[1][0])
+                return [("value", path, ("comp", "gen", g[2], ((v, xs, ()),)))]
         # getattr(x, "name")  ==  x.name
         if f == ("glob", "ext:builtins.getattr") and len(args) == 2 and not kwargs and args[1][0] == "const" and isinstance(args[1][1], str):
             return [("value", path, self.read_attr(args[0], args[1][1], path, node))]
